@@ -38,7 +38,7 @@ class Subscription(Referenceable):
             # subscriber see events in sorted order. We bypass the bounded
             # queue for this.
             events = list(self.logger.get_buffered_events())
-            events.sort(key=lambda a: a['num'])
+            events.sort(key=lambda a: a['num'] if isinstance(a['num'], int) else -1)
             for e in events:
                 self.observer.callRemoteOnly("msg", e)
 
